@@ -4,7 +4,7 @@
 The theorems are about coq/theories; only the correspondence ties those definitions to /repo. This tool checks that the tie is
 tight where it matters: it plants a small change in a model definition (in a scratch copy outside /verif), rebuilds only the
 extracted driver from the mutated theories, and runs the property's suite against the UNCHANGED implementation with that driver.
-A mutant the suite does not notice marks a part of the model that the generators do not exercise (that is how the zero-padding bug
+(Known equivalent mutants, not in the list: not stripping trailing zeros in show_num - with the minimal number of decimals there are\nnone; clear_cache keeping the token cache - clients only ever get copies, so the token cache is not observable.)\nA mutant the suite does not notice marks a part of the model that the generators do not exercise (that is how the zero-padding bug
 of Printer.show_num stayed hidden until a proof found it). Results go to /verif/seeded/model-mutants.json."""
 import json
 import os
@@ -17,7 +17,6 @@ V = os.path.dirname(os.path.dirname(os.path.abspath(__file__)))
 COQ = os.path.join(V, "coq")
 
 MUTANTS = [
-    ("printer-no-strip", "Printer.v", "if (c =? 48)%N then [] else [c]", "[c]", "C04", "2.5 would print as 2.50"),
     ("printer-right-assoc-parens", "Printer.v", "DR => addsub k && addsub pk", "DR => false", "C04", "a - (b - c) without parentheses"),
     ("printer-pad", "Printer.v", "repeat 48%N (n - length l) ++ l", "repeat 48%N (min 1 (n - length l)) ++ l", "C04", "the old padding bug: 0.007 as 0.07"),
     ("sgn-zero", "Num.v", "else if nlt (NInt 0) a then NInt 1 else NInt 0.", "else if nlt (NInt 0) a then NInt 1 else NInt 1.", "C05", "sgn(0) = 1"),
@@ -30,6 +29,13 @@ MUTANTS = [
      "rotation re-attaches on the wrong side of the grandparent"),
     ("round-ties", "Problems.v", "else if Z.even fl then fl else fl + 1.", "else fl + 1.", "C17", "%.1f ties rounded up instead of to even"),
     ("haystack-complexity", "Problems.v", "Z.of_nat (length lt) + 1 + Z.of_nat (length rt)", "Z.of_nat (length lt) + Z.of_nat (length rt)", "C17", "complexity off by one"),
+    ("parser-pow-first", "Parser.v", "match rev fs with [] => [] | last::ri => rev ri ++ [Bin KPow last r] end", "match fs with [] => [] | f0::rest => Bin KPow f0 r :: rest end", "C03",
+     "an exponent after juxtaposed factors binds to the first factor"),
+    ("bt-post-order", "Bt.v", "let (s1,st) := visit_post l (d+1) s in if st then (s1,true) else\n    let (s2,st) := visit_post r (d+1) s1 in if st then (s2,true) else",
+     "let (s1,st) := visit_post r (d+1) s in if st then (s1,true) else\n    let (s2,st) := visit_post l (d+1) s1 in if st then (s2,true) else", "C14", "post-order visits the right child first"),
+    ("factor-best", "Util.v", "nmin c0 (c0::cs) else nmax c0 (c0::cs)", "nmax c0 (c0::cs) else nmax c0 (c0::cs)", "C08", "factor-out takes the largest common factor when variables are present"),
+    ("parser-alias", "ParserObj.v", "(with_heap st (heap st ++ [hget (heap st) r]), Some copy)", "(st, Some r)", "C12", "a cache hit hands out the cached list itself"),
+    ("layout-centre", "Layout.v", "let o := qred ((rootsep + 1) / 2) in", "let o := qred ((rootsep + 2) / 2) in", "C18", "children offset by half of (separation + 2)"),
     ("lexer-functions", "Lexer.v", "let here := if is_function_name v then", "let here := if false then", "C11", "sgn lexed as three variables"),
 ]
 
@@ -73,10 +79,10 @@ def main():
                 continue
             env = dict(os.environ, VERIF_DRIVER=os.path.join(ex, "driver"), VERIF_NO_XCHECK="1")
             rc = run(["/venv/bin/python", os.path.join(V, "harness", "vcheck.py"), prop, "--tier", "quick"], cwd=V, env=env)
-            tail = rc.stdout.strip().splitlines()[-1] if rc.stdout.strip() else ""
             import re
-            m = re.search(r"disagreements=(\d+)", tail)
-            results.append(dict(mutant=name, file=fn, what=what, check=prop, noticed=bool(m and int(m.group(1)) > 0), tail=tail[-160:]))
+            m = re.search(r"disagreements=(\d+)", rc.stdout + rc.stderr)
+            noticed = rc.returncode != 0 and "VIOLATION" in rc.stdout and bool(m and int(m.group(1)) > 0)
+            results.append(dict(mutant=name, file=fn, what=what, check=prop, noticed=noticed, disagreements=int(m.group(1)) if m else None))
             print(results[-1], flush=True)
         finally:
             shutil.rmtree(d, ignore_errors=True)
